@@ -66,7 +66,8 @@ def required(tier):
            'C02.M-psd', 'C02.form.list', 'C02.form.fortran',
            'C02.form.strided', 'C02.form.single', 'C02.form.int',
            'C02.form.prep-array', 'C02.form.prep-callable',
-           'C02.form.float32', 'C02.form.float32-transform']}
+           'C02.form.float32', 'C02.form.float32-transform',
+           'C02.batch-size']}
 
 
 def run_case(spec, j):
@@ -223,6 +224,26 @@ def run_case(spec, j):
       singles = np.array([est.pair_distance(P[i:i + 1])[0]
                           for i in range(min(n, 8))])
       same('C02.form.single', singles, idx=np.arange(min(n, 8)))
+      if qc in ('train', 'gauss'):
+        # the number of pairs in a call is arbitrary: powers of two and
+        # their neighbours, where blocked implementations have their seams
+        for size in (2, 255, 256, 257, 1023, 1024, 1025, 2048, 4097):
+          ib = np.resize(np.arange(n), size)
+          try:
+            got = est.pair_distance(P[ib])
+            gs = est.pair_score(P[ib])
+            gt = est.transform(P[ib, 0])
+          except Exception as e:
+            j.violated('C02.batch-size', dict(det, size=size,
+                                              raised=repr(e)[:200]))
+            continue
+          okb = got.shape == (size,) and gt.shape == (size, k) and \
+              np.array_equal(gs, -got, equal_nan=True)
+          j.check('C02.batch-size', bool(okb), dict(det, size=size,
+                                                    shape=got.shape))
+          j.close('C02.batch-size', got[sel[ib]], d1[ib][sel[ib]],
+                  rel * np.abs(d1[ib][sel[ib]]) + tol_diff[ib][sel[ib]],
+                  dict(det, size=size))
       if qc == 'int' or np.all(P == np.round(P)) and np.abs(P).max() < 2**53:
         Pi = P.astype(np.int64)
         same('C02.form.int', est.pair_distance(Pi))
